@@ -98,9 +98,9 @@ CLAIMED = {
    note="Trusted: TLC; the harness's level walker and value unroller; depth counts class levels (0-12 quick; thorough adds 50, 100, 150 on a sample); below the second level values are paths rather than full trees. Known finding KF-C07-01 at depth 150 only."),
  "C11": dict(
    engine="Member",
-   technique="TLA+ specs Terms/Wire (Strip) + Member_Trace.tla ('pair' relation evaluated by TLC); wrapper chains x positions x reference origins materialised in generated modules, W(T) vs T compared on marshal/unmarshal/encode/decode",
+   technique="TLA+ specs Terms/Wire (Strip) + Member_Trace.tla ('pair' relation evaluated by TLC); wrapper chains x positions x reference origins materialised in generated modules, W(T) vs T compared on marshal/unmarshal/encode/decode; Refs.tla (what a string reference denotes: Python's reading vs the transcribed module resolution, checked by TLC, every case replayed into refs.forwardref/evaluate and judged by Refs_Trace.tla)",
    level="model_checking",
-   text="Wrapper chains of length <=3 over NewType / TypeAliasType (value and string) with Final/ClassVar where Python permits, over 10 base types, are placed at root, collection argument, mapping value, tuple member, union member, class field, class field after a plain field of the same type, in a holder declared in another module, after the plain type in a tuple, and on the back-edge of a recursive class, and referred to as objects, by string from the defining module (also from three nested calls), by ForwardRef(module=), by module-qualified string, by a string naming the module twice and by a ForwardRef used as a list argument; for every input the outcome with W(T) must equal the outcome with T (value terms equal, or both raise), which TLC checks event by event.",
+   text="Wrapper chains of length <=3 over NewType / TypeAliasType (value and string) with Final/ClassVar where Python permits, over 10 base types, are placed at root, collection argument, mapping value, tuple member, union member, class field, class field after a plain field of the same type, in a holder declared in another module, after the plain type in a tuple, and on the back-edge of a recursive class, and referred to as objects, by string from the defining module (also from three nested calls), by ForwardRef(module=), by module-qualified string, by a string naming the module twice and by a ForwardRef used as a list argument; for every input the outcome with W(T) must equal the outcome with T (value terms equal, or both raise), which TLC checks event by event. String reference resolution is modelled on its own (Refs.tla): for 42 structured texts (dotted paths, list[path], typing.Optional[path], path | path; module-qualified, class-qualified, through an imported module, unbound) x explicit module x 4 call stacks TLC checks that wherever Python's reading of the text in the namespace it was written in succeeds the library denotes the same object (the first-dot rule of the pinned snapshot fails), and each of the 504 cases is issued to the real code from generated modules and judged by the trace spec.",
    ref="DESIGN.md section 4 C11",
    note="Trusted: TLC; term projection; twin classes compared up to their name. typelib's memos are cleared before each string-referenced call (the cross-module poisoning of the reference memo is C12's subject). Strip idempotence is checked at model level on the Terms universe."),
  "C15": dict(
